@@ -445,6 +445,8 @@ func (ctx *Ctx) cmp(path []byte, cond op, right []byte) bool {
 
 func (ctx *Ctx) cmpLC(lc lc, path []byte, cond op, right []byte) bool {
 	ctx.Err = nil
+	// Inspectors leave the result untouched when the path leads nowhere: it must not keep the previous length.
+	ctx.bufI = 0
 	if ctx.chQB {
 		path = ctx.replaceQB(path)
 	}
